@@ -93,7 +93,7 @@ int main() {
       int *iv = (int *)std::malloc(sizeof(int) * (ntrim > 0 ? ntrim : 1)); for (int i = 0; i < ntrim; ++i) iv[i] = i + 1;
       size_t before = __sanitizer_get_current_allocated_bytes();
       if (a == 1) { g_room = nlen - ntrim; CAP_append_suffix_bufferify(buf, ntrim, nlen); val = buf[nlen - 1]; }
-      else if (a == 2) { int each = (c % 7) + 1; char *tg = (char *)std::malloc((size_t)ntrim * each + 1); std::memset(tg, ' ', (size_t)ntrim * each + 1);
+      else if (a == 2) { int each = (c % 7) + 1; size_t tgn = (size_t)ntrim * each; char *tg = (char *)std::malloc(tgn ? tgn : 1); std::memset(tg, ' ', tgn);   // exactly n*len characters: no terminator, no spare byte
                          for (int i = 0; i < ntrim; ++i) std::memset(tg + (size_t)i * each, 't', (i % (each + 1)));
                          before = __sanitizer_get_current_allocated_bytes();
                          g_room = ntrim; val = CAP_count_tags_bufferify(tg, ntrim, each); size_t mid = __sanitizer_get_current_allocated_bytes();
